@@ -12,14 +12,14 @@ from sx.shims import patched
 ID = "C41"
 MANIFEST = {
     "technique": "bounded model checking of thread schedules with solver-decided choice (SX engine): the threading and queue modules as seen by pkgcore.util.thread_pool are replaced by gated versions (Thread, Queue, Event) under a deterministic scheduler in which exactly one thread runs at a time and every queue operation, thread start, join and unit of worker progress is a scheduling point; which thread continues at each point is a sequence of solver-chosen integers (at most two pre-emptions per run, every forced switch free), so the schedule is a symbolic input; the engine forks over every feasible schedule for every item count, thread count and worker result kind, runs the real map_async under it and compares the multiset of processed items and the returned results with the specification; a state in which no thread can run is reported as a deadlock",
-    "level_text": "Bounded model checking, exhaustive within the bound (0-3 items x 1-3 requested threads x 3 worker result kinds x sized / unsized iterables x every schedule with at most two pre-emptions over the first 16 (quick) / 24 (thorough) scheduling points): the worker is called on each item exactly once across the pool, every non-empty result is returned exactly once (generator results flattened), no run deadlocks, and all threads have ended when map_async returns. Selector-only in the data; the schedule is the solver-chosen variable.",
+    "level_text": "Bounded model checking, exhaustive within the bound (0-3 items x 1-3 requested threads x 3 worker result kinds x sized / unsized iterables x an item that is None or not x every schedule with at most two pre-emptions over the first 12 (quick) / 24 (thorough) scheduling points): the worker is called on each item exactly once across the pool, every non-empty result is returned exactly once (generator results flattened), no run deadlocks, and all threads have ended when map_async returns. Selector-only in the data; the schedule is the solver-chosen variable.",
     "level_note": "The gated primitives replace the C-level ones: what is explored is the interleaving of the operations map_async and its workers perform, at the granularity of those operations (sequentially consistent, no pre-emption inside a single queue operation).",
 }
 META = {
     "modules": ["pkgcore.util.thread_pool"],
     "functions": ["thread_pool.map_async", "thread_pool.reclaim_threads"],
     "stubs": ["threading.Thread / threading.Event / queue.Queue inside pkgcore.util.thread_pool (gated versions under a deterministic scheduler)"],
-    "bounds": {"quick": "items 0..3, threads 1..3, at most 2 pre-emptions within the first 16 scheduling points", "thorough": "first 24 scheduling points, 3 pre-emptions for 2 threads"},
+    "bounds": {"quick": "items 0..3, threads 1..3, at most 2 pre-emptions within the first 12 scheduling points", "thorough": "first 24 scheduling points, 3 pre-emptions for 2 threads"},
     "outside": ["more than 3 threads / 3 items", "pre-emption inside a single queue or deque operation (the C-level primitives are atomic under the GIL)", "KeyboardInterrupt delivery", "threads=0 with a non-empty unsized iterable (nobody to do the work; map_async returns an empty result)"],
     "assumptions": ["queue.Queue, deque.append/extend and threading.Event are linearizable"],
     "selector_only": False,
@@ -68,6 +68,13 @@ class Sched:
         else:
             order = cands
         return order[d % len(order)]
+
+    def decide(self):
+        """one more solver-chosen bit (used for bounded waits that may expire)"""
+        d = self.decisions[self.di] if self.di < len(self.decisions) else 0
+        self.di += 1
+        self.points += 1
+        return bool(d)
 
     def switch(self, cur):
         """called by the running thread at a scheduling point"""
@@ -162,10 +169,17 @@ def fake_modules(sched):
             self.items.append(x)
 
         def get(self, block=True, timeout=None):
+            if (timeout is not None or not block) and not self.items:
+                # a bounded wait on an empty queue may expire before the producer runs: a scheduling decision
+                if not block or sched.decide():
+                    raise Empty()
             wait_until(lambda: bool(self.items))
             point()
             wait_until(lambda: bool(self.items))
             return self.items.popleft()
+
+    class Empty(Exception):
+        pass
 
     class Event:
         def __init__(self):
@@ -184,7 +198,7 @@ def fake_modules(sched):
 
     import types
 
-    return types.SimpleNamespace(Thread=Thread, Event=Event), types.SimpleNamespace(Queue=Queue)
+    return types.SimpleNamespace(Thread=Thread, Event=Event), types.SimpleNamespace(Queue=Queue, Empty=Empty)
 
 
 class Unsized:
@@ -200,7 +214,7 @@ class PoolHarness(Harness):
         ob = self.ob
         dec = [eng.int(f"d{i}", 0, 2) for i in range(ob["ndec"])]
         eng.assume(z3.Sum([z3.If(d.e != 0, 1, 0) for d in dec]) <= ob["preempt"])
-        return {"dec": dec, "kind": eng.int("result_kind", 0, len(KINDS) - 1), "sized": eng.bool("iterable_has_len")}
+        return {"dec": dec, "kind": eng.int("result_kind", 0, len(KINDS) - 1), "sized": eng.bool("iterable_has_len"), "none_item": eng.bool("an_item_is_None")}
 
     def body(self, inp):
         ob = self.ob
@@ -222,12 +236,14 @@ class PoolHarness(Harness):
             if kind == "item":
                 return got or None
             if kind == "none-for-odd":
-                return [x for x in got if x % 2 == 0] or None
+                return [x for x in got if x is None or x % 2 == 0] or None
             return (("r", x) for x in got)
 
         threading_mod, queue_mod = fake_modules(sched)
         items = list(range(n))
-        out = {"items": n, "threads": t, "kind": kind, "sized": c["sized"], "problems": []}
+        if c.get("none_item") and n:
+            items[min(1, n - 1)] = None  # an item that looks like "nothing"
+        out = {"items": n, "none_item": bool(c.get("none_item")), "threads": t, "kind": kind, "sized": c["sized"], "problems": []}
         try:
             with patched((thread_pool, "threading", threading_mod), (thread_pool, "queue", queue_mod)):
                 results = list(thread_pool.map_async(items if c["sized"] else Unsized(items), worker, threads=t))
@@ -241,8 +257,9 @@ class PoolHarness(Harness):
         out["scheduling_points"] = sched.points
         if results is None:
             return out
-        if sorted(processed) != items:
-            out["problems"].append(f"processed {sorted(processed)} instead of each of {items} exactly once")
+        key = lambda x: (-1 if x is None else x) if not isinstance(x, tuple) else (-1 if x[1] is None else x[1])
+        if sorted(processed, key=key) != sorted(items, key=key):
+            out["problems"].append(f"processed {sorted(processed, key=key)} instead of each of {sorted(items, key=key)} exactly once")
         import types
 
         if any(isinstance(r, types.GeneratorType) for r in results):
@@ -252,14 +269,14 @@ class PoolHarness(Harness):
             out["problems"].append(f"results hold {[type(r).__name__ for r in results]} instead of the workers' lists")
             return out
         if kind == "item":
-            want = sorted(items)
-            flat = sorted(x for r in results for x in r)
+            want = sorted(items, key=key)
+            flat = sorted((x for r in results for x in r), key=key)
         elif kind == "none-for-odd":
-            want = sorted(x for x in items if x % 2 == 0)
-            flat = sorted(x for r in results for x in r)
+            want = sorted((x for x in items if x is None or x % 2 == 0), key=key)
+            flat = sorted((x for r in results for x in r), key=key)
         else:
-            want = sorted(("r", x) for x in items)
-            flat = sorted(results)
+            want = sorted((("r", x) for x in items), key=key)
+            flat = sorted(results, key=key)
         if flat != want:
             out["problems"].append(f"results {flat} instead of {want}")
         alive = [g.name for g in sched.threads[1:] if g.started and not g.finished]
@@ -283,6 +300,6 @@ def obligations(tier, seed):
     for n in range(0, 4):
         for t in range(1, 4):
             pre = 3 if tier != "quick" and t == 2 else 2
-            obs.append({"oid": f"{n} items|{t} threads|<={pre} pre-emptions", "items": n, "threads": t, "preempt": pre, "ndec": 16 if tier == "quick" else NDEC, "max_paths": 400000, "max_s": 2400})
+            obs.append({"oid": f"{n} items|{t} threads|<={pre} pre-emptions", "items": n, "threads": t, "preempt": pre, "ndec": 12 if tier == "quick" else NDEC, "max_paths": 400000, "max_s": 2400})
     UNIVERSE[tier] = {"obligations": len(obs)}
     return obs
